@@ -586,11 +586,44 @@ def stale_cursor(**kw):
     return sc.rec
 
 
+def compact_during_install(**kw):
+    """a follower with a dump file compacts its own log while it is part-way through receiving a chunked snapshot"""
+    sc = Script(base_cfg([1, 2, 3], chunk=1000, dump='file', journal='file', ballast=30000), **kw)
+    s, sim = sc.s, sc.sim
+    s.boot()
+    sc.elect(1)
+    sc.settle([1, 2, 3], 2)
+    for _ in range(3):
+        s.submit(1, size=20)
+    sc.settle([1, 2, 3], 4)
+    sc.isolate(3)
+    for _ in range(6):
+        s.submit(1, size=20)
+    sc.settle([1, 2], 4)
+    sc.rec.do(('compact', 1))
+    sc.settle([1, 2], 3)
+    sc.join(3)
+    s.tick(1, 11)                          # the whole snapshot is queued towards 3
+    n = sim.queue_len(1, 3)
+    for _ in range(max(1, n // 2)):
+        s.deliver(1, 3)                    # 3 has received about half of the chunks
+    sc.rec.do(('compact', 3))
+    s.tick(3, 11)                          # its own dump is written now
+    s.tick(3, 11)
+    sc.flush(1, 3)                         # the rest of the transfer
+    sc.flush(3, 1)
+    sc.settle([1, 2, 3], 8)
+    s.kill(3)
+    s.restart(3)
+    sc.settle([1, 2, 3], 6)
+    return sc.rec
+
+
 SCENARIOS = {'d7': d7, 'd8': d8, 'd17': d17, 'd16': d16, 'd1': d1, 'd20': d20,
              'snapshot_catchup': snapshot_catchup, 'forwarded': forwarded,
              'restart_double_vote': restart_double_vote, 'd18': d18, 'd10': d10, 'd19': d19, 'd6': d6,
              'ser_fork': ser_fork, 'ser_custom': ser_custom, 'fig8': fig8, 'stale_match_reelected': stale_match_reelected,
-             'stale_cursor': stale_cursor}
+             'stale_cursor': stale_cursor, 'compact_during_install': compact_during_install}
 NAMES = sorted(SCENARIOS)
 
 
